@@ -20,10 +20,15 @@ impl Read for ChunkRd {
         Ok(n)
     }
 }
+/// the kind of an injected failure varies with the offset (a caller must treat every kind as a failure)
+fn injected_kind(pos: usize) -> io::ErrorKind {
+    [io::ErrorKind::Other, io::ErrorKind::BrokenPipe, io::ErrorKind::ConnectionReset, io::ErrorKind::PermissionDenied, io::ErrorKind::TimedOut,
+     io::ErrorKind::WouldBlock, io::ErrorKind::ConnectionAborted][pos % 7]
+}
 impl BufRead for ChunkRd {
     fn fill_buf(&mut self) -> io::Result<&[u8]> {
         if self.pos < self.cur_end { return Ok(&self.data[self.pos..self.cur_end]); }
-        if self.fail_at == Some(self.pos) { return Err(io::Error::new(io::ErrorKind::Other, "injected read failure")); }
+        if self.fail_at == Some(self.pos) { return Err(io::Error::new(injected_kind(self.pos), "injected read failure")); }
         if self.pos >= self.data.len() { return Ok(&[]); }
         let remaining = self.data.len() - self.pos;
         let mut c = self.sched.get(self.k).copied().unwrap_or(remaining).max(1).min(remaining);
@@ -40,7 +45,7 @@ pub struct ShortWr { pub out: Vec<u8>, pub sched: Vec<usize>, pub k: usize, pub 
 impl Write for ShortWr {
     fn write(&mut self, buf: &[u8]) -> io::Result<usize> {
         if self.fail_at == Some(self.out.len()) {
-            return if buf.is_empty() { Ok(0) } else { Err(io::Error::new(io::ErrorKind::Other, "injected write failure")) };
+            return if buf.is_empty() { Ok(0) } else { Err(io::Error::new(injected_kind(self.out.len()), "injected write failure")) };
         }
         let mut c = self.sched.get(self.k).copied().unwrap_or(buf.len()).max(1).min(buf.len());
         self.k += 1;
@@ -55,7 +60,8 @@ pub fn err_kind(e: &io::Error) -> String {
     match e.kind() {
         io::ErrorKind::UnexpectedEof => "eof".into(),
         io::ErrorKind::InvalidData | io::ErrorKind::InvalidInput => "invalid".into(),
-        io::ErrorKind::Other | io::ErrorKind::WriteZero => "io".into(),
+        io::ErrorKind::Other | io::ErrorKind::WriteZero | io::ErrorKind::BrokenPipe | io::ErrorKind::ConnectionReset | io::ErrorKind::PermissionDenied
+        | io::ErrorKind::TimedOut | io::ErrorKind::WouldBlock | io::ErrorKind::ConnectionAborted => "io".into(),
         k => format!("other:{k:?}"),
     }
 }
@@ -176,6 +182,23 @@ pub fn eval(ctx: &Ctx, op: &str, a: &[&str]) -> Option<String> {
             if !std::path::Path::new("/dev/full").exists() { return Some("NO-DEV-FULL".into()); }
             Some(cli_render(&cli::run_sfs(&ctx.sfs_bin, &args, &input)))
         }
+        // stdout is a pipe whose reading end is already closed (EPIPE on the first write):  io.epipe cmd args shape bits
+        "io.epipe" => {
+            use std::io::Write as _;
+            use std::process::{Command, Stdio};
+            let input = crate::npy::write_f8(&parse_nats(a[2]), &parse_bits(a[3]));
+            let mut args = vec![a[0].to_string()]; args.extend(fmt_args(a[1]));
+            let mut child = Command::new(&ctx.sfs_bin).args(&args).env("SFS_ALLOW_STDIN", "1").env("RUST_BACKTRACE", "0")
+                .stdin(Stdio::piped()).stdout(Stdio::piped()).stderr(Stdio::piped()).spawn().ok()?;
+            drop(child.stdout.take());                     // close the reading end before the child has anything to write
+            let mut si = child.stdin.take()?;
+            let _ = si.write_all(&input); drop(si);
+            let o = child.wait_with_output().ok()?;
+            let stderr = String::from_utf8_lossy(&o.stderr).into_owned();
+            let code = o.status.code().unwrap_or(-1);
+            let class = if stderr.contains("panicked at") || code == 101 || code == -1 { "PANIC" } else if code == 0 { "OK" } else { "ERR" };
+            Some(format!("{class}|{code}"))
+        }
         // history of an output path: write a long result to PATH, then a shorter one to the same PATH, read PATH back
         //   io.overwrite fmt p shape1 bits1 shape2 bits2
         "io.overwrite" => {
@@ -205,7 +228,9 @@ pub fn eval(ctx: &Ctx, op: &str, a: &[&str]) -> Option<String> {
             if cli::class(&o1) != "OK" { let _ = std::fs::remove_file(&path); return Some(format!("STAGE1 {}", cli_render(&o1))); }
             let mid = if a[1] == "file" { std::fs::read(&path).unwrap_or_default() } else { o1.stdout.clone() };
             let mut args2 = vec![a[2].to_string()]; args2.extend(fmt_args(a[3]));
-            let o2 = if a[1] == "file" { args2.push(path.clone()); cli::run_sfs(&ctx.sfs_bin, &args2, &[]) } else { cli::run_sfs(&ctx.sfs_bin, &args2, &mid) };
+            let o2 = if a[1] == "file" { args2.push(path.clone()); cli::run_sfs(&ctx.sfs_bin, &args2, &[]) }
+                     else if let Some(k) = a[1].strip_prefix("split") { cli::run_sfs_split(&ctx.sfs_bin, &args2, &mid, k.parse().unwrap_or(1)) }
+                     else { cli::run_sfs(&ctx.sfs_bin, &args2, &mid) };
             let _ = std::fs::remove_file(&path);
             Some(format!("MID {}|{}", hex(&mid), cli_render(&o2)))
         }
@@ -245,7 +270,7 @@ pub fn eval(ctx: &Ctx, op: &str, a: &[&str]) -> Option<String> {
 fn eval_geno(a: &[&str]) -> String {
     use sfs_core::input::{genotype, site::{self, reader::builder::{Project, Samples}, Site}, sample::{Population, Sample}, ReadStatus};
     let (container, layout) = (a[0], a[1].parse::<u64>().unwrap_or(0));
-    let cs = vcf::CallSet { cols: a[3].split(',').map(|s| s.to_string()).collect(), recs: create::parse_records(a[6]), extras: a[2] == "1" };
+    let cs = vcf::CallSet { cols: a[3].split(',').map(|s| s.to_string()).collect(), recs: create::parse_records(a[6]), extras: a[2] == "1", wide: 0 };
     let bytes = match create::container_bytes(&cs, container, layout) { Some(b) => b, None => return "UNBUILDABLE".into() };
     let sched = parse_sched(a[7]);
     // failure offsets are given in per-mille of the stream length (the request does not know the container size)
@@ -377,6 +402,15 @@ pub fn gen_c07(ctx: &Ctx, rng: &mut Rng, out: &mut Vec<String>) {
         let transport = if (i / 2) % 2 == 0 { "pipe" } else { "file" };
         let (cmd2, args2) = match (i / 4) % 3 { 0 => ("view", "-O npy"), 1 => ("fold", "--precision 17"), _ => ("stat", "-s sum --precision 17") };
         out.push(format!("io.pipe\t-O {fmt} --precision {p}\t{transport}\t{cmd2}\t{args2}\t{}\t{}", nats(&shape), bits(&data)));
+    }
+    // the reader's stdin delivers the file in two pieces with a pause: a first read that ends inside the header, at the header's end,
+    // inside a value (odd offsets), at a value boundary; npy and text
+    for (i, k) in [1usize, 6, 10, 127, 128, 129, 131, 136, 141, 151, 199].into_iter().enumerate() {
+        if !t && i % 2 == 1 && k != 141 { continue; }
+        let data: Vec<f64> = (0..9).map(|j| if j == 2 { 3.25 } else { j as f64 + 0.5 }).collect();
+        let (cmd2, args2) = [("view", "-O npy"), ("fold", "--precision 17"), ("stat", "-s sum --precision 17")][i % 3];
+        out.push(format!("io.pipe\t-O npy --precision 6\tsplit{k}\t{cmd2}\t{args2}\t3,3\t{}", bits(&data)));
+        if i % 4 == 0 { out.push(format!("io.pipe\t-O text --precision 6\tsplit{k}\t{cmd2}\t{args2}\t3,3\t{}", bits(&data))); }
     }
     // larger spectra through real pipes: values whose bytes contain 0x0a (stdout is line buffered), more than a pipe buffer of data
     for (i, side) in [21usize, 40, 64].into_iter().enumerate() {
@@ -598,6 +632,27 @@ pub fn gen_c16(ctx: &Ctx, rng: &mut Rng, out: &mut Vec<String>) {
             }
         }
     }
+    // large files whose value count sits on and around powers of two (block / buffer sizes a reader may use internally):
+    // extensions by a partial value, whole values, a whole second copy; truncations at a few offsets
+    for (li, shape) in [vec![64usize, 64], vec![4096], vec![8192], vec![128, 32], vec![4095], vec![4097], vec![1024], vec![2048], vec![3, 4096]].into_iter().enumerate() {
+        if !t && li >= 4 { continue; }
+        let n: usize = shape.iter().product();
+        let data: Vec<f64> = (0..n).map(|j| ((j * 31 + li) % 509) as f64).collect();
+        let scs = Scs::new(data, shape).unwrap();
+        let mut f = Vec::new();
+        write::Builder::default().set_format(Format::Npy).write(&mut f, &scs).unwrap();
+        out.push(format!("io.npyread\t{}", hex(&f)));
+        for (k, e) in [1usize, 3, 7, 8, 9, 16, 64, 4096].into_iter().enumerate() {
+            if !t && ![1, 8, 9, 4096].contains(&e) { continue; }
+            let mut g = f.clone(); g.extend((0..e).map(|j| if k % 2 == 0 { 0u8 } else { (j * 37 + 11) as u8 }));
+            out.push(format!("io.npyread\t{}", hex(&g)));
+            if e == 1 || e == 8 { out.push(format!("io.specread\t{}", hex(&g))); let (c, a) = cmds[(k + li) % 3]; out.push(format!("io.cmd\t{c}\t{a}\t{}", hex(&g))); }
+        }
+        let mut twice = f.clone(); twice.extend_from_slice(&f);
+        out.push(format!("io.npyread\t{}", hex(&twice)));
+        out.push(format!("io.cmd\tview\t-\t{}", hex(&twice)));
+        for cut in [1usize, 8, 9, 4096, 8 * 1024, f.len() - 128 - 8 * (n / 2)] { if !t && cut > 9 && cut != 4096 { continue; } if cut < f.len() { out.push(format!("io.npyread\t{}", hex(&f[..f.len() - cut]))); } }
+    }
     // text: token removal / insertion, shape edits
     for fi in 0..(if t { 120 } else { 25 }) {
         let shape = if fi == 0 { vec![3] } else { shapes::random_shape(rng, 1, 4, 1, 4, 24) };
@@ -676,7 +731,10 @@ pub fn gen_c18(ctx: &Ctx, rng: &mut Rng, out: &mut Vec<String>) {
         for (cmd, args) in [("view", "-O text"), ("view", "-O npy"), ("fold", "--fill zero")] {
             if !t && si % 2 == 1 && cmd == "fold" { continue; }
             out.push(format!("io.devfull\t{cmd}\t{args}\t{side},{side}\t{}", bits(&data)));
+            // … and to a pipe whose reader is gone (EPIPE instead of ENOSPC)
+            if si % 2 == 0 || t { out.push(format!("io.epipe\t{cmd}\t{args}\t{side},{side}\t{}", bits(&data))); }
         }
+        if si % 3 == 0 { out.push(format!("io.epipe\tstat\t-s sum\t{side},{side}\t{}", bits(&data))); }
     }
     // a call set larger than the 64 KiB detection prefix: chunk boundaries before, at and after offset 65536
     {
